@@ -5,6 +5,18 @@ import json, os, subprocess
 ROOT = os.path.dirname(os.path.dirname(os.path.abspath(__file__)))
 
 CLAIMED = {
+  "C27": dict(engine="E2 p2psim", level="exploration", design="§4 C27, §2.3",
+      technique="deterministic discrete-event simulation of InitiatorBehavior vs. simulated interface and peers with fault injection (connect failure, reset, Byzantine messages); set/limit/ban invariants after every step",
+      text="Seeded histories of commands, housekeeping passes and interface events (faithful connection model, 1..3 and 1..20 peers, small limits) drive the real InitiatorBehavior; after every step the four promotion sets are checked for disjointness and limits, the banned set for monotonicity, and every Connect output is checked, at the instant it is produced, against the set of peers banned so far.",
+      note="Trusts the simulated interface's event-order rules (DESIGN §2.3) and that polling the outbound queue is side-effect free. Manager is replaced by the seeded loop. BanPeer of an untracked peer is not judged."),
+  "C28": dict(engine="E2 p2psim", level="exploration", design="§4 C28, §2.3",
+      technique="deterministic simulation with seeded delay of Sent/Recv confirmations relative to housekeeping and commands; wire monitor (spec automata) judging every emitted message against emitted+received history",
+      text="Seeded schedules interleave commands, repeated housekeeping, output hand-over, Sent/Recv/Error/Disconnected delivery and replies of conformant simulated responders; each Send output is judged when produced against the spec state implied by all messages previously emitted to and received from that peer; a responder-side automaton cross-checks at dispatch. Lock-step sub-batches (no in-flight emissions) keep the rest of the space judged despite the known update-on-Sent defect.",
+      note="Trusts spec::proto and the event-order rules of the simulated interface. Eight KNOWN-FINDING signatures (one root cause: emitters decide on the Sent-confirmed state) are stepped over by resetting the connection."),
+  "C29": dict(engine="E2 p2psim", level="exploration", design="§4 C29",
+      technique="deterministic simulation of both behaviours under Byzantine peers and an unconstrained interface-event alphabet; panic capture with minimised replay",
+      text="Histories of up to 300 events: faithful connection model with Byzantine peers and faults (initiator), and any interface event for any peer in any order interleaved with every command (initiator and responder). Oracle: no panic, the output stream stays pollable and bounded.",
+      note="Built with overflow checks on. Samples histories; no exhaustive bound."),
   "C24": dict(engine="E2 p2psim", level="exploration", design="§4 C24, Appendix A",
       technique="deterministic simulation of two-party message histories (conformant + Byzantine senders) against spec automata; per-state single-step sweep of every message variant",
       text="Seeded sessions of simulated peers drive the real State::apply of all 8 P2P protocols; at every reached state every message variant is applied and verdict, successor class and carried data are compared with a spec automaton written from the Ouroboros specification. All (state, message) pairs of the finite tables are reached in every tier; histories are sampled.",
@@ -15,7 +27,7 @@ CLAIMED = {
       note="Trusts blake2b/ed25519 of pallas-crypto (used on both sides) and the hand-written strict CBOR walker. Single actor; no scheduler/clock/transport."),
 }
 
-PENDING = {k: 'claimed in DESIGN.md; check under construction (not yet registered)' for k in 'C09 C12 C13 C20 C21 C22 C23 C25 C26 C27 C28 C29 C39 C40 C42 C43'.split()}  # id -> reason while a claimed check is still being built
+PENDING = {k: 'claimed in DESIGN.md; check under construction (not yet registered)' for k in 'C09 C12 C13 C20 C21 C22 C23 C25 C26 C39 C40 C42 C43'.split()}  # id -> reason while a claimed check is still being built
 
 NA = {
  "C01": "Flat encoder/decoder are in-memory functions of a value sequence; bit alignment depends on the values written, not on any schedule, stream, clock or fault.",
